@@ -11,6 +11,7 @@ import (
 
 	"github.com/smart-core-os/sc-api/go/traits"
 	"github.com/smart-core-os/sc-api/go/types"
+	"github.com/smart-core-os/sc-golang/pkg/masks"
 	"github.com/smart-core-os/sc-golang/pkg/resource"
 )
 
@@ -101,6 +102,9 @@ func (m *Model) ListWasteRecords(start, count int) []*traits.WasteRecord {
 
 func (m *Model) pullWasteRecordsWrapper(request *traits.PullWasteRecordsRequest, server traits.WasteApi_PullWasteRecordsServer) error {
 	if !request.UpdatesOnly {
+		// the historical records honour the read mask like the values of the subscription below (on copies: they are
+		// the stored messages)
+		filter := masks.NewResponseFilter(masks.WithFieldMask(request.ReadMask))
 		m.mu.Lock()
 		i := len(m.allWasteRecords) - 50
 		if i < 0 {
@@ -109,7 +113,7 @@ func (m *Model) pullWasteRecordsWrapper(request *traits.PullWasteRecordsRequest,
 		for ; i < len(m.allWasteRecords)-1; i++ {
 			change := &traits.PullWasteRecordsResponse_Change{
 				Name:       request.Name,
-				NewValue:   m.allWasteRecords[i],
+				NewValue:   filter.FilterClone(m.allWasteRecords[i]).(*traits.WasteRecord),
 				ChangeTime: m.allWasteRecords[i].WasteCreateTime,
 				Type:       types.ChangeType_ADD,
 			}
